@@ -597,21 +597,6 @@ pub fn oracle(db: &MemDb, b: &BlockSpec) -> BlockResult {
             None => "acct:none".to_owned(),
             Some(i) => format!("acct:{:x}:{}:{:x}", i.balance, i.nonce, i.code_hash),
         });
-        // explicit nonce-overflow rule (revm saturates)
-        if !disable_nonce_check && tx.nonce == u64::MAX {
-            let n = revm::Database::basic(evm.db_mut(), tx.caller).map(|a| a.map_or(0, |a| a.nonce));
-            match n {
-                Ok(u64::MAX) => {
-                    outcomes.push(outcome_digest(&TxExecutionOutcome::Skipped(grevm::InvalidTransaction::NonceOverflowInTransaction)));
-                    continue;
-                }
-                Ok(_) => {}
-                Err(e) => {
-                    result = Err((i, format!("Database({:?})", e)));
-                    break;
-                }
-            }
-        }
         match evm.transact_raw(tx.clone()) {
             Ok(rs) => {
                 evm.db_mut().commit(rs.state);
